@@ -263,3 +263,16 @@ contract(U + "SeparatorBase.match",
     raises={"*": {}},
     serves=["C02", "C03"],
 )
+
+# U16: StringBase.match - a leaf rule keeps the matched text verbatim (C02)
+contract(U + "StringBase.match@regex",
+    types=dict(pattern="regex", string="str"), returns="tuple[str]?",
+    ensures={"iff_pattern_matches": "(result is not None) == re_matched(pattern, string)",
+             "text_kept_verbatim": "implies(result is not None, nonnull(result)[0] == string)"},
+    raises=[], serves=["C02"])
+
+contract(U + "StringBase.match@str",
+    types=dict(pattern="str", string="str"), returns="tuple[str]?",
+    ensures={"iff_equal": "(result is not None) == (pattern == string)",
+             "text_kept_verbatim": "implies(result is not None, nonnull(result)[0] == string)"},
+    raises=[], serves=["C02"])
